@@ -558,10 +558,10 @@ def attr_ops_menu(uid, ver, quick_names=None):
     all_names = CONSTRUCTIBLE + UNKNOWN_NAMES
     if ver < (2, 0):
         for n in all_names:
-            for idx in (None, 0, 1, 5, -1):
+            for idx in (None, 0, 1, 2, 5, -1):
                 out.append({'op': 'ModifyAttribute1', 'uid': uid, 'attr': {'name': n, 'index': idx}})
         for n in all_names + NAME_ONLY:
-            for idx in (None, 0, 1, 5, -1):
+            for idx in (None, 0, 1, 2, 5, -1):
                 out.append({'op': 'DeleteAttribute1', 'uid': uid, 'name': n, 'index': idx})
     else:
         for n in CONSTRUCTIBLE:
